@@ -1,0 +1,26 @@
+//go:build verif
+
+// Verification-only re-exports (guard: -tags verif).  Add-only; not compiled
+// into any normal build.
+package ipam
+
+import (
+	"context"
+
+	v3 "github.com/projectcalico/api/pkg/apis/projectcalico/v3"
+	corev1 "k8s.io/api/core/v1"
+
+	"github.com/projectcalico/calico/libcalico-go/lib/apis/internalapi"
+	"github.com/projectcalico/calico/libcalico-go/lib/net"
+)
+
+// VerifAllowedPools is the pool selection of prepareAffinityBlocksForHost:
+// determinePools followed by filterPoolsByUse.
+func VerifAllowedPools(c Interface, ctx context.Context, requested []net.IPNet, version int, node internalapi.Node, namespace *corev1.Namespace, maxPrefixLen int, use v3.IPPoolAllowedUse) ([]v3.IPPool, error) {
+	ic := c.(*ipamClient)
+	matching, _, err := ic.determinePools(ctx, requested, version, node, namespace, maxPrefixLen)
+	if err != nil {
+		return nil, err
+	}
+	return filterPoolsByUse(matching, use), nil
+}
